@@ -114,7 +114,7 @@ func c10newEnv() *c10env {
 	for _, n := range []string{"n0", "n1", "n2"} {
 		e.nodes = append(e.nodes, c10local(n))
 	}
-	for _, n := range []string{"c1", "c2", "c3", "cx"} {
+	for _, n := range []string{"c1", "c2", "c3", "c4", "c5", "cx"} {
 		e.cands[n] = c10local(n)
 	}
 	h := c10height
@@ -134,7 +134,7 @@ func c10newEnv() *c10env {
 	}
 	e.states[isaac.SuffrageCandidateStateKey] = base.NewBaseState(h-2, isaac.SuffrageCandidateStateKey,
 		isaac.NewSuffrageCandidatesStateValue([]base.SuffrageCandidateStateValue{
-			cand("cx", h-20, h-10), cand("c1", h-1, h+5), cand("c2", h-1, h+5),
+			cand("cx", h-20, h-10), cand("c1", h-1, h+5), cand("c2", h-1, h+5), cand("c4", h-1, h+5), cand("c5", h-1, h+5),
 		}), c10hash("prev-cand"), []util.Hash{c10hash("prev-cand-op")})
 
 	// prior network policy
@@ -165,6 +165,8 @@ func c10newEnv() *c10env {
 	}
 	add("join-c1", "join", join("t-join-c1", "c1", e.nodes...), false, "")
 	add("join-c2", "join", join("t-join-c2-valid", "c2", e.nodes...), false, "")
+	add("join-c4", "join", join("t-join-c4", "c4", e.nodes...), false, "")
+	add("join-c5", "join", join("t-join-c5", "c5", e.nodes...), false, "")
 	add("join-c2-fewsigns", "join", join("t-join-c2", "c2", e.nodes[0]), false, "")
 	add("join-c1-dup", "join", join("t-join-c1-dup", "c1", e.nodes...), false, "")
 	candop := func(token, c string) isaacoperation.SuffrageCandidate {
@@ -554,6 +556,36 @@ func (run *c10run) finishNative() {
 	_ = run.w.Writer.Cancel()
 }
 
+func c10perms(xs []int) [][]int {
+	if len(xs) <= 1 {
+		return [][]int{append([]int{}, xs...)}
+	}
+	var out [][]int
+	for i := range xs {
+		rest := append(append([]int{}, xs[:i]...), xs[i+1:]...)
+		for _, p := range c10perms(rest) {
+			out = append(out, append([]int{xs[i]}, p...))
+		}
+	}
+	return out
+}
+
+func (e *c10env) sel(names ...string) []int {
+	out := make([]int, len(names))
+	for i, n := range names {
+		out[i] = -1
+		for j, it := range e.menu {
+			if it.name == n {
+				out[i] = j
+			}
+		}
+		if out[i] < 0 {
+			panic("unknown menu item " + n)
+		}
+	}
+	return out
+}
+
 func c10selections(n, maxlen int) [][]int {
 	out := [][]int{{}}
 	var rec func(cur []int)
@@ -586,10 +618,14 @@ func c10native(r *vlib.Run, e *c10env) {
 	maxlen := vlib.Pick(r, 2, 3)
 	reps := vlib.Pick(r, 2, 4)
 	sels := c10selections(len(e.menu), maxlen)
+	if maxlen < 3 {
+		sels = append(sels, c10perms(e.sel("join-c1", "join-c2", "join-c4"))...) // three joins accepted in one block
+	}
+	sels = append(sels, c10perms(e.sel("join-c1", "join-c2", "join-c4", "join-c5"))[:vlib.Pick(r, 4, 24)]...)
 	r.Set("native_inputs_enumerated", len(sels))
 	r.Set("native_max_selection", maxlen)
-	r.Set("native_runs_per_input", 1+3*reps)
-	defer runtime.GOMAXPROCS(runtime.GOMAXPROCS(4))
+	r.Set("native_runs_per_input", vlib.Pick(r, 1+2*reps, 1+3*reps))
+	defer runtime.GOMAXPROCS(runtime.GOMAXPROCS(vlib.Pick(r, 2, 4)))
 	for i, sel := range sels {
 		if !r.Mine(i) || r.Expired() {
 			continue
@@ -613,7 +649,11 @@ func c10native(r *vlib.Run, e *c10env) {
 		}
 		orders := map[string]bool{strings.Join(ref0.rec.merges, "<"): true}
 		for _, w := range []int64{1, 2, 64} {
-			for k := 0; k < reps; k++ {
+			n := reps
+			if w == 1 && !r.Thorough() {
+				n = 0 // the reference run is the sequential one
+			}
+			for k := 0; k < n; k++ {
 				run := e.newRun(in, w)
 				run.process()
 				got := e.result(run)
@@ -859,31 +899,57 @@ func (e *c10env) schedScenarios(r *vlib.Run) []c10scenario {
 			all3 = append(all3, c)
 		}
 	}
-	if !r.Thorough() {
-		add(all2, []int64{2}, "A", false, false, 1)
-		add(conflicts, []int64{1, 64}, "A", false, false, 1)
-		add(conflicts[:6], []int64{2, 64}, "B", true, true, 1)
-		return scs
-	}
-	add(all2, []int64{1, 2, 64}, "A", false, false, 1)
-	add(all2, []int64{2, 64}, "B", true, true, 1)
-	add(conflicts, []int64{2}, "B", false, true, 1)
-	add(conflicts, []int64{2}, "A", true, false, 1)
-	// selections of exactly 3 from the 7 operations of the design menu
+	// three / four joins accepted in one block, every order of listing them in the proposal
+	joins3 := c10perms(e.sel("join-c1", "join-c2", "join-c4"))
+	joins4 := c10perms(e.sel("join-c1", "join-c2", "join-c4", "join-c5"))
+	// selections of <= 2 / exactly 3 from the 7 operations of the design menu
 	core := map[int]bool{}
 	for _, i := range sel("join-c1", "join-c2-fewsigns", "cand-c3", "disjoin-n1", "expel-n2", "policy-a", "join-c1-dup") {
 		core[i] = true
 	}
-	var core3 [][]int
+	incore := func(c []int) bool {
+		for _, i := range c {
+			if !core[i] {
+				return false
+			}
+		}
+		return true
+	}
+	var core2, core3 [][]int
+	for _, c := range all2 {
+		if incore(c) {
+			core2 = append(core2, c)
+		}
+	}
 	for _, c := range all3 {
-		if core[c[0]] && core[c[1]] && core[c[2]] {
+		if incore(c) {
 			core3 = append(core3, c)
 		}
 	}
+	if !r.Thorough() {
+		add(joins3, []int64{64}, "A", false, false, 1)
+		add(joins3[:2], []int64{2}, "A", false, false, 1)
+		add(conflicts, []int64{2, 64}, "A", false, false, 1)
+		add(conflicts[:6], []int64{1}, "A", false, false, 1)
+		add(core2, []int64{2}, "A", false, false, 1)
+		add(conflicts[:6], []int64{2}, "B", true, true, 1)
+		add(joins3[:1], []int64{64}, "B", true, true, 1)
+		return scs
+	}
+	add(joins3, []int64{2, 64}, "A", false, false, 1)
+	add(joins4, []int64{64}, "A", false, false, 1)
+	add(joins4[:4], []int64{2, 3}, "A", false, false, 1)
+	add(all2, []int64{1, 2, 64}, "A", false, false, 1)
+	add(all2, []int64{2}, "B", true, true, 1)
+	add(conflicts, []int64{64}, "B", true, true, 1)
+	add(joins3, []int64{64}, "B", true, true, 1)
+	add(conflicts, []int64{2}, "B", false, true, 1)
+	add(conflicts, []int64{2}, "A", true, false, 1)
 	add(core3, []int64{2, 64}, "A", false, false, 1)
+	add(joins3[:1], []int64{64}, "A", false, false, 2)
 	add(singles, []int64{2}, "A", false, false, 2)
-	add(conflicts[:8], []int64{2}, "A", false, false, 2)
-	add(conflicts[:3], []int64{64}, "A", false, false, 2)
+	add(conflicts[:5], []int64{2}, "A", false, false, 2)
+	add(conflicts[:2], []int64{64}, "A", false, false, 2)
 	return scs
 }
 
@@ -1047,7 +1113,7 @@ func c10sched(r *vlib.Run, e *c10env) {
 func TestVerifC10(t *testing.T) {
 	r := vlib.Start("C10")
 	defer r.Finish()
-	r.Rule("inputs = ordered selections without repetition of 13 pre-signed menu operations (valid joins c1/c2, join with too few signs, duplicate join, candidates c3 / expired cx, disjoin n1, expels of n2 / n1 arriving as reserved operations through an expel INIT voteproof, two network-policy changes, an expel listed in the proposal body, an operation the pool reports invalid) over one prior state (suffrage n0,n1,n2; candidates c1,c2 valid, cx expired; one network policy). Stage 1 (native): every selection of <= 2 (quick) / <= 3 (thorough) operations, MaxWorkerSize 1/2/64, repeated native runs against the first sequential run. Stage 2 (controlled scheduler, deciding): scenario = selection x MaxWorkerSize x shard placement x map-range order; one thread calls DefaultProposalProcessor.Process on fresh real objects; EVERY schedule deviating from the deterministic base schedule in <= k scheduling decisions (delay bound k) of that thread and all goroutines started by the processor, its job workers, the writer's save worker and the states merger's close worker; each execution's (manifest hash, operations root, states root, suffrage hash, error) must equal the sequential reference; states = inputs and scenarios; non-trivial = >= 2 operations of the input reach the states merger")
+	r.Rule("inputs = ordered selections without repetition of 15 pre-signed menu operations (valid joins c1/c2/c4/c5, join with too few signs, duplicate join, candidates c3 / expired cx, disjoin n1, expels of n2 / n1 arriving as reserved operations through an expel INIT voteproof, two network-policy changes, an expel listed in the proposal body, an operation the pool reports invalid) over one prior state (suffrage n0,n1,n2; candidates c1,c2,c4,c5 valid, cx expired; one network policy). Stage 1 (native): every selection of <= 2 (quick) / <= 3 (thorough) operations plus the 3-join and 4-join blocks in every / several listing orders, MaxWorkerSize 1/2/64, repeated native runs against the first sequential run. Stage 2 (controlled scheduler, deciding): scenario = selection x MaxWorkerSize x shard placement x map-range order; one thread calls DefaultProposalProcessor.Process on fresh real objects; EVERY schedule deviating from the deterministic base schedule in <= k scheduling decisions (delay bound k) of that thread and all goroutines started by the processor, its job workers, the writer's save worker and the states merger's close worker; each execution's (manifest hash, operations root, states root, suffrage hash, error) must equal the sequential reference; states = inputs and scenarios; non-trivial = >= 2 operations of the input reach the states merger")
 	r.Assume("goleveldb and the JSON encoder run as atomic steps of the calling thread; the FSWriter is a recording stub; prior states come from a pure map-backed GetStateFunc")
 	r.Assume("stage 2 builds the processor as a copy of one made by NewDefaultProposalProcessor with fresh oprs/stcache sharded maps of 32/512 shards and harness-chosen placement (spread, or all keys in one shard) instead of 32/65535 shards and a random djb2 seed; crypto/rand.Reader is pinned per scenario so that the sharded maps created inside Process get the same seed in every execution (placement decides lock sharing only)")
 	e := c10newEnv()
